@@ -182,8 +182,28 @@ def run_wire(c):
         server = E.make_context("AES-CCM-16-64-128", b"\x02", b"\x01", None, b"salt", secret, window=size)
         msgs = []
         seqs = []
+        notifs = []
+        rid_s = None
+        if c.get("both_roles"):
+            # the receiving context is a client of the same peer as well: an observation of its own is outstanding, and the
+            # peer's notifications carry Partial IVs from the same counter as its requests.  Unprotecting a response --
+            # however old -- must leave the replay window for requests alone.
+            import aiocoap
+            from aiocoap import Message
+            from aiocoap.message import Direction
+
+            own = aiocoap.Message(code=aiocoap.GET, payload=b"")
+            own.opt.observe = 0
+            outer_s, rid_s = server.protect(own)
+            w_s, _ = E.over_the_wire(outer_s, mid=900)
+            _, rid_at_client = client.unprotect(w_s)
         for i, gap in enumerate(c["gaps"]):
             client.sender_sequence_number += gap
+            if rid_s is not None and i % 4 == 0:
+                nm = aiocoap.Message(code=aiocoap.CONTENT, payload=b"notif-%d" % i)
+                nm.opt.observe = i + 1
+                outer_n, _ = client.protect(nm, rid_at_client)
+                notifs.append(E.over_the_wire(outer_n, mid=1000 + i)[1])
             seqs.append(client.sender_sequence_number)
             outer, _ = client.protect(build_request(i))
             _, data = E.over_the_wire(outer, mid=i)
@@ -191,6 +211,21 @@ def run_wire(c):
         outcomes = []
         accepted = set()
         for ev in c["arrivals"]:
+            if ev[0] == "response":
+                if not notifs:
+                    continue
+                wn = Message.decode(notifs[ev[1] % len(notifs)])
+                wn.direction = Direction.INCOMING
+                before = server.recipient_replay_window.persist()
+                try:
+                    server.unprotect(wn, rid_s)
+                except Exception:
+                    pass  # (whether an old notification still verifies is not this property's business)
+                after = server.recipient_replay_window.persist()
+                labels.add("response-in-between")
+                if before != after:
+                    vio.append(V("C12/response-changes-replay-window", "window %r -> %r after unprotecting one of the peer's notifications" % (before, after)))
+                continue
             if ev[0] == "auth":
                 i = ev[1] % len(msgs)
                 res = deliver(server, msgs[i])
@@ -270,7 +305,13 @@ def _wire_case(draw):
             max_size=120,
         )
     )
-    return {"window": draw(st.sampled_from([1, 2, 8, 32, 64])), "start": draw(st.sampled_from([0, 0, 5, 255, 2**32 - 3])), "gaps": gaps, "arrivals": arrivals}
+    case = {"window": draw(st.sampled_from([1, 2, 8, 32, 64])), "start": draw(st.sampled_from([0, 0, 5, 255, 2**32 - 3])), "gaps": gaps, "arrivals": arrivals}
+    if draw(st.integers(0, 2)) == 0:
+        case["both_roles"] = True
+        extra = draw(st.lists(st.tuples(st.integers(0, len(arrivals)), st.integers(0, 20)), min_size=1, max_size=6))
+        for pos, j in sorted(extra, reverse=True):
+            arrivals.insert(pos, ["response", j])
+    return case
 
 
 # --------------------------------------------------------------------------------------
